@@ -90,8 +90,12 @@ def syscall_sites(ctx, prog, A):
                 fail_t = tt
             elif k == 0 and pred == 'eq':
                 fail_t = ft
-            if fail_t is not None and must_reach_call(lg, fail_t, {'bailout'}):
-                ok = True
+            if fail_t is not None:
+                # the failure edge may enter a short-circuit merge (`bad = a || b; if (bad)`): follow it as an edge
+                _, red = cfg.threaded_successors(lg)
+                start = red.get((b.name, fail_t), fail_t)
+                if must_reach_call(lg, start, {'bailout'}):
+                    ok = True
         ctx.ob('C21.syscall', '%s in log_generic: failure leads to bailout()' % c.extra['callee'], lg.loc(c), ok, '')
 
 
@@ -307,9 +311,11 @@ def bailout_rules(ctx, prog, A):
            guard_holds(gs, lambda c, pol: pol and c[0] == 'call' and c[1] == 'xmember'), '')
     # halt: SIGUSR1 -> bailout (main thread then exits 1)
     h = prog.func('signals', 'halt')
-    sw = [i for i in h.insns() if i.op == 'switch']
-    ctx.require(len(sw) == 1, 'halt: expected a switch')
-    cases = dict(sw[0].extra['cases'])
+    vd = rules.value_dispatch(h, A.cg.prov(h), lambda e: e[0] == 'load' and
+                              addr_key(e[1]).startswith('G:signals:handled_signals['))
+    ctx.require(vd is not None, 'halt: no dispatch on handled_signals[caught_index]')
+    cases = vd[0]
+    sw = [vd[3]]
     ctx.ob('C21.bailout', 'the main thread turns SIGUSR1 into bailout()', h.loc(sw[0]), SIGUSR1 in cases and
            must_reach_call(h, cases[SIGUSR1], {'bailout'}), '')
 
